@@ -5,6 +5,7 @@
 # points at that worktree, so /repo and /verif themselves are not touched. Results:
 # /var/tmp/lanes/results.txt, one line per seed (DETECTED / MISSED / NOAPPLY / BROKEN).
 set -u
+guard_dev() { [ -c /dev/full ] || { rm -f /dev/full; mknod -m 666 /dev/full c 1 7 && echo "note: /dev/full restored" >&2; }; }
 N=${1:-4}; PAT=${2:-*}
 export GOFLAGS=-mod=mod GOPROXY=off
 L=/var/tmp/lanes; rm -rf $L; mkdir -p $L
@@ -40,6 +41,7 @@ PY
       (cd $V && VERIF_REPO=$R timeout 1500 ./check $c quick > $L/$i/$id.$c.log 2>&1); rc=$?
       res="$res $c=$rc"; [ $rc = 1 ] && hit=1 && break
     done
+    guard_dev
     if [ $hit = 1 ]; then echo "$id DETECTED$res" >> $L/results.txt; rm -f $L/$i/$id.*.log; else echo "$id MISSED$res" >> $L/results.txt; fi
   done < $L/$i/todo.txt
   cd /; git -C $R checkout -q -- . ; git -C /repo worktree remove --force $R
